@@ -65,7 +65,10 @@ CALLS = [("ret", 8), ("assign", 3), ("funlit", 3), ("funlit2", 2), ("funlitml", 
 CALLS_PLAIN = [("ret", 8), ("assign", 3), ("catch", 2), ("multi", 2)]
 # calls of a function of the same object that do not go through a local call instruction: apply_low (call_other,
 # also from a simul_efun and through efun / simul_efun pointers) and function pointers to the local function
-CALLS_LOCALNAME = [("co_self", 4), ("co_arrow", 2), ("simul", 3), ("fp_local", 3), ("fp_efun", 2), ("fp_simul", 2)]
+CALLS_LOCALNAME = [("co_self", 4), ("co_arrow", 2), ("simul", 3), ("fp_local", 3), ("fp_efun", 2), ("fp_simul", 2),
+                   ("cb_map_fp", 2), ("cb_map_str", 2), ("cb_filter", 1)]   # cb_*: the call is made by an efun (callback)
+WARN_BOOL = ("  x_ = (k == 1) | (k == 2);\n", "Warning:_bitwise_operation_on_boolean_values.")
+WARN_PRAGMA = ("#pragma c18_unknown\n", "Warning:_Unknown_#pragma,_ignored.")
 SIMUL_PROG, SIMUL_OBJ, SIMUL_LINE = "c18/simul_efun.c", "/c18/simul_efun", 4
 
 
@@ -73,12 +76,24 @@ class Gen:
     """builds one program family (child program, optional inherited program, include trees) with a failing
     statement at a recorded position, and the record (`expect` line) of what must be reported"""
 
-    def __init__(self, rng, tag, big=False, thorough=False):
+    def __init__(self, rng, tag, big=False, thorough=False, warn=None, ginc=None):
         self.rng = rng
         self.d = "/c18/%s" % tag
         self.big = big
         self.thorough = thorough
         self.meta = {}
+        # compile-time diagnostics on known lines (`#pragma warnings` + constructs that make the compiler warn)
+        self.warn = rng.chance(1, 3) if warn is None else warn
+        self.ces = []
+        self.ginc = rng.chance(1, 3) if ginc is None else ginc    # run under the GlobalInclude configuration
+
+    def maybe_warn(self, src, toplevel, force=False):
+        if not self.warn or not (force or self.rng.chance(1, 3)):
+            return
+        text, msg = WARN_PRAGMA if toplevel else WARN_BOOL
+        self.ces.append((src.name, src.line, msg))
+        src.text(text)
+        self.meta["ce"] = self.meta.get("ce", 0) + 1
 
     def padding(self, src, allow_big=False):
         r = self.rng
@@ -89,6 +104,7 @@ class Gen:
             n = r.weighted(PAD_SMALL)
         if n:
             src.pad(r.choice(["n", "c"]), n)
+        self.maybe_warn(src, True)
         return n
 
     # -- function bodies ---------------------------------------------------
@@ -107,9 +123,13 @@ class Gen:
                     "simul": 'c18_via(this_object(), "%s", k)' % nxt,
                     "fp_local": 'evaluate((: %s :), k)' % nxt,
                     "fp_efun": 'evaluate((: call_other :), this_object(), "%s", k)' % nxt,
-                    "fp_simul": 'evaluate((: c18_via :), this_object(), "%s", k)' % nxt}[kind]
+                    "fp_simul": 'evaluate((: c18_via :), this_object(), "%s", k)' % nxt,
+                    "cb_map_fp": 'map_array(({ k }), (: %s :))[0]' % nxt,
+                    "cb_map_str": 'map_array(({ k }), "%s", this_object())[0]' % nxt,
+                    "cb_filter": 'sizeof(filter_array(({ k }), (: %s :)))' % nxt}[kind]
             src.text("int %s(int k) {\n" % name)
             src.pad("s", r.weighted(FILL))
+            self.maybe_warn(src, False)
             lo = src.line
             src.text("  return %s + 1;\n" % expr)
             frames.append((name, prog, obj, src.name, lo, lo))
@@ -134,6 +154,7 @@ class Gen:
             return kind == "catch"
         src.text("int %s(int k) {\n" % name)
         src.pad("s", r.weighted(FILL))
+        self.maybe_warn(src, False)
         if r.chance(1, 4):
             src.pad(r.choice(["n", "c"]), r.range(1, 3))
         lo = src.line
@@ -184,6 +205,7 @@ class Gen:
             src.text("  mixed a_;\n")
         nfill = r.weighted(FILL)
         src.pad("s", nfill)
+        self.maybe_warn(src, False, force=bool(self.warn and not self.ces))
         if r.chance(1, 4):
             src.pad(r.choice(["n", "c"]), r.range(1, 3))
         lo = src.line
@@ -332,7 +354,7 @@ class Gen:
         bf = ["b%d" % i for i in range(1, nbase + 1)]
         of = ["o%d" % i for i in range(1, r.range(1, 3) + 1)] if other else []
         frames = []
-        pragma = "#pragma save_binary\n" if binary else ""
+        pragma = ("#pragma save_binary\n" if binary else "") + ("#pragma warnings\n" if self.warn else "")
         caught = False
         allfiles = []
 
@@ -402,6 +424,7 @@ class Gen:
                 "callout": ["vapply o1 arm 4", "tick 2", exp, exp],
                 "clone": ["clone o5 %s/m" % d, exp] * rep}[via]
         lines = [s.cmd() for s in allfiles]
+        lines += ["expectce file=%s line=%d text=%s" % c for c in self.ces]
         loads = (["load o3 %s/base" % d] if inherit else []) + (["load o2 %s/other" % d] if other else []) + \
             ["load o1 %s/m" % d]
         dumps = ["dump o1"] + (["dump o2"] if other else [])
@@ -410,7 +433,9 @@ class Gen:
             # every program of the family is dropped and comes back from its saved binary
             lines += ["unload o1"] + (["unload o2"] if other else []) + (["unload o3"] if inherit else [])
             lines += loads + trig + dumps
-        self.meta.update({"via": via, "rep": rep})
+        if self.ginc:
+            lines = ["mode ginc"] + lines
+        self.meta.update({"via": via, "rep": rep, "ginc": bool(self.ginc)})
         self.meta.update({"depth": depth, "inherit": inherit, "binary": binary, "caught": caught, "other": bool(other),
                           "override": bool(override), "maxline": max(s.line for s in allfiles)})
         return lines
@@ -538,17 +563,57 @@ def case_multi_include(tag, variant, rng=None):
     return [f.cmd() for f in files] + ["load o1 %s/m" % d, "apply o1 go", "dump o1", exp]
 
 
+def case_overlap(tag, where="main", pad=0):
+    """compile-time ERROR whose text carries two decoded positions: `Overlapping cases: <file>:<line> and <file>:<line>.`
+    (prepare_cases decodes the absolute lines of both case labels against the file_info table written SO FAR, after an
+    extra save_file_info); the switch is in the main file or in a header included after another header"""
+    d = "/c18/%s" % tag
+    m = Src("%s/m.c" % d)
+    m.text("int x_;\nvoid set_oid(string s) {}\n")
+    files = [m]
+    src = m
+    if where != "main":
+        a = Src("%s/a.h" % d)
+        a.text("// a\n")
+        a.pad("n", 7 + pad)
+        a.text("int fa(int k) { return k; }\n")
+        b = Src("%s/b.h" % d)
+        b.text("// b\n")
+        m.pad("n", 2)
+        m.text('#include "a.h"\n')
+        m.pad("c", 3)
+        m.text('#include "b.h"\n')
+        files += [a, b]
+        src = b
+    src.pad("n", pad)
+    src.text("int go(int k) {\n  switch (k) {\n")
+    la = src.line
+    src.text("    case 1..5:\n      return 1;\n")
+    src.pad("n", 1 + pad % 3)
+    lb = src.line
+    src.text("    case 3..7:\n      return 2;\n  }\n  return 0;\n}\n")
+    if where != "main":
+        m.text("int after(int k) { return k; }\n")
+    text = "Overlapping_cases:_%s:%d_and_%s:%d." % (src.name, lb, src.name, la)
+    return [f.cmd() for f in files] + ["load o1 %s/m" % d, "expectce file=%s line=-1 text=%s" % (src.name, text)]
+
+
 class C18(Prop):
     id = "C18"
     no_shrink = True   # cases are reported exactly as generated (lines depend on each other)
     title = "Runtime errors are reported at the right file and line with a correct trace"
-    lean_modules = ["NV.C18.Props", "NV.C18.Witness", "NV.C18.SourceTexts"]
+    lean_modules = ["NV.C18.Props", "NV.C18.PropsCompile", "NV.C18.PropsDump", "NV.C18.PropsOracle", "NV.C18.Witness", "NV.C18.SourceTexts",
+                    "NV.C18.SourceTexts2"]
     theorems = ["NV.C18.line_roundtrip_raw", "NV.C18.line_roundtrip", "NV.C18.long_statement_ok",
                 "NV.C18.file_roundtrip", "NV.C18.file_roundtrip_ids", "NV.C18.file_roundtrip_partial",
                 "NV.C18.fresh_idsOf", "NV.C18.trace_order",
                 "NV.C18.runEms_li", "NV.C18.translateAbs_at", "NV.C18.widths_agree",
                 "NV.C18.pass1Continues_iff", "NV.C18.scanContinues_iff", "NV.C18.split_agrees",
-                "NV.C18.apply_paths_store_table_index", "NV.C18.apply_frame_named", "NV.C18.source_statements_agree"]
+                "NV.C18.apply_paths_store_table_index", "NV.C18.apply_frame_named", "NV.C18.source_statements_agree",
+                "NV.C18.compile_roundtrip", "NV.C18.abs_pos", "NV.C18.abs_mono",
+                "NV.C18.frame_kinds_exhaustive", "NV.C18.dump_trace_matches_svalue_trace", "NV.C18.dtText_spec",
+                "NV.C18.locText_of_ok", "NV.C18.dump_trace_args_lines", "NV.C18.dump_trace_ret_heart_beat",
+                "NV.C18.translate_eq_positions", "NV.C18.file_roundtrip_global_include", "NV.C18.psizeRejects_iff", "NV.C18.pass2_agrees", "NV.C18.source_statements_agree2"]
     witness_theorems = ["NV.C18.file_roundtrip_Full_false", "NV.C18.line_roundtrip_Full_false",
                         "NV.C18.reinclude_wrong", "NV.C18.reinclude_repaired", "NV.C18.wide_wrong", "NV.C18.signed_short_wrong",
                         "NV.C18.init_block_only_noted", "NV.C18.init_replay"]
@@ -671,6 +736,24 @@ class C18(Prop):
             ("srcPushControl", L(R("src/frame.c"), "void push_control_stack (int frkind) {", "csp->pc = pc;", r"csp", "frame:push_control_stack")),
         ]
 
+    def source_statements2(self):
+        """regions tied in the extend round (frozen copies in NV/C18/SourceTexts2.lean)"""
+        R = lambda *p: open(os.path.join(E.REPO, *p)).read()
+        sim, icode, frame = R("src/simulate.c"), R("lib/lpc/program/icode.c"), R("src/frame.c")
+        L = self._lines
+        ansi = lambda ls: [re.sub(r'" (YEL|NOR|CYN|HIY|HIC) "', "", l) for l in ls]
+        return [
+            ("srcDumpTrace", ansi(L(sim, "char* dump_trace (int how) {", "fflush (current_log_file);",
+                                    r"log_message \(NULL, \"\\t\"|get_line_number|get_trace_details|num_arg =|num_local =|ret =|strcmp|for \(p|case FRAME|switch|if \(\(how|if \(current_prog|if \(csp|return",
+                                    "simulate:dump_trace"))),
+            ("srcTraceDetails", L(sim, "static void get_trace_details (", "ftd->num_local = func_entry->def.num_local;", None, "simulate:get_trace_details")),
+            ("srcGetLineNumber", L(sim, "char* get_line_number (const char *p, const program_t * progp) {", "return buf;\n}", None, "simulate:get_line_number")),
+            ("srcPopControl", L(frame, "void pop_control_stack () {", "fp = csp->fp;", r"^(current_object|current_prog|pc) =", "frame:pop_control_stack")),
+            ("srcSetupFrame", sorted(set(L(frame, "compiler_function_t* setup_new_frame (int index) {", "\n}\n", r"fr\.table_index", "frame:setup_new_frame") +
+                                         L(frame, "compiler_function_t* setup_inherited_frame (int index) {", "\n}\n", r"fr\.table_index", "frame:setup_inherited_frame")))),
+            ("srcInheritedInit", L(icode, "\ni_generate_inherited_init_call (int index, int f)", "ins_byte (F_CALL_INHERITED);", r"switch_to_line", "icode:inherited_init")),
+        ]
+
     def gen_extra(self, ctx, bdir):
         """the guards of the three scan loops, transcribed from the source (regex over the function bodies)"""
         prog = open(os.path.join(E.REPO, "lib/lpc/program.c")).read()
@@ -681,6 +764,16 @@ class C18(Prop):
         g1, c1 = self._loop_guard(first, r"line_tmp", r"\*\s*p1", "translate_absolute_line:pass1")
         fb = self._body(sim, "static int find_line", "find_line")
         g2, c2 = self._loop_guard(fb, r"offset", r"\*\s*lns", "find_line:scan")
+        # find_line: `if (offset > (int) progp->program_size)` => "(no line numbers)"
+        mps = re.search(r"if\s*\(\s*offset\s*(<=|>=|==|!=|<|>)\s*\(int\)\s*progp->program_size\s*\)", fb)
+        if not mps:
+            raise X.TieBroken("find_line:program_size", "the test of the offset against program_size no longer has the shape if (offset OP (int) progp->program_size)")
+        # translate_absolute_line, second pass: `if (p2[1] == file) line_tmp += *p2;`
+        second = tb.split("p2 = file_info")[1] if "p2 = file_info" in tb else ""
+        mp2 = re.search(r"if\s*\(\s*p2\s*\[\s*1\s*\]\s*(<=|>=|==|!=|<|>)\s*file\s*\)\s*line_tmp\s*(\+=|-=)\s*\*\s*p2\s*;", second)
+        mw2 = re.search(r"while\s*\(\s*p2\s*(<=|>=|==|!=|<|>)\s*p1\s*\)", second)
+        if not (mp2 and mw2):
+            raise X.TieBroken("translate_absolute_line:pass2", "the second pass no longer has the shape while (p2 OP p1) { if (p2[1] OP file) line_tmp += *p2; p2 += 2; }")
         sb = self._body(icode, "static void switch_to_line", "switch_to_line")
         m = re.search(r"while\s*\(\s*sz\s*(<=|>=|==|!=|<|>)\s*(\d+)\s*\)", sb)
         m2 = re.findall(r"\*p\+\+\s*=\s*(\d+)\s*;", sb)
@@ -708,13 +801,20 @@ class C18(Prop):
         out.append("def pass1Continues (a : Int) (b : Int) : Bool := decide (%s)" % g1)
         out.append("/-- C (src/simulate.c, find_line): `%s` -/" % c2)
         out.append("def scanContinues (a : Int) (b : Int) : Bool := decide (%s)" % g2)
+        out.append("/-- C (src/simulate.c, find_line): `%s` — is the offset rejected (\"(no line numbers)\")? -/" % mps.group(0))
+        out.append("def psizeRejects (a : Int) (b : Int) : Bool := decide (a %s b)" % self.LEAN_OP[mps.group(1)])
+        out.append("/-- C (lib/lpc/program.c, second pass of translate_absolute_line): `%s` inside `%s`: does an earlier segment of\n"
+                   "    file `a` count for file `b`, how is it applied, and which segments are visited (all in front of the one found) -/" % (mp2.group(0), mw2.group(0)))
+        out.append("def pass2Adds (a : Nat) (b : Nat) : Bool := decide (a %s b)" % self.LEAN_OP[mp2.group(1)])
+        out.append("def pass2Sign : Int := %s" % ("1" if mp2.group(2) == "+=" else "-1"))
+        out.append('def pass2LoopOp : String := "%s"' % mw2.group(1))
         out.append("/-- C (lib/lpc/program/icode.c, switch_to_line): `%s`, the length written for a full run and the decrement -/" % m.group(0))
         out.append('def splitOp : String := "%s"' % m.group(1))
         out.append("def splitBound : Nat := %s" % m.group(2))
         out.append("def splitLen : Nat := %s" % m2[0])
         out.append("def splitDec : Nat := %s" % m3.group(1))
         out.append("\n/-! the statements the model was written from, as they are in the source now -/")
-        for name, lines in self.source_statements():
+        for name, lines in self.source_statements() + self.source_statements2():
             out.append("def %s : List String := [\n  %s]" % (name, ",\n  ".join('"%s"' % l.replace("\\", "\\\\").replace('"', '\\"') for l in lines)))
         return "\n".join(out)
 
@@ -724,6 +824,9 @@ class C18(Prop):
         t = open(self.conf).read()
         t = re.sub(r"(?m)^SimulEfunFile\s+\S+", "SimulEfunFile   /c18/simul_efun.c", t)
         open(self.conf, "w").write(t)
+        # second configuration: every compilation unit starts inside a global include file (cases with `mode ginc`)
+        self.conf_g = self.conf[:-5] + "-ginc.conf"
+        open(self.conf_g, "w").write(t + 'GlobalInclude   "/c18/ginc.h"\n')
 
     def canon(self, lines):
         # a recoverable UBSan `pointer-overflow` report of binaries.c:locate_in (`ADD (prog->inherit, prog)` on a program
@@ -733,7 +836,13 @@ class C18(Prop):
                 and not (l.startswith("sanitizer ") and "binaries.c" in l and "pointer index expression" in l)]
 
     def run_impl(self, ctx, cases):
-        res = E.run_harness(self.exe, self.conf, cases, ctx.rundir, timeout=3000)
+        plain = [c for c in cases if "mode ginc" not in c.lines]
+        ginc = [c for c in cases if "mode ginc" in c.lines]
+        res = {}
+        if plain or not ginc:
+            res.update(E.run_harness(self.exe, self.conf, plain, ctx.rundir, timeout=3000))
+        if ginc:
+            res.update(E.run_harness(self.exe, self.conf_g, ginc, ctx.rundir, timeout=3000))
         self._last = (tuple(c.id for c in cases), tuple(len(c.lines) for c in cases), res)
         return res
 
@@ -764,6 +873,10 @@ class C18(Prop):
                 v = rng.choice(["again", "self", "back"])
                 out.append(E.Case("g%d" % i, case_multi_include(tag, v, rng), {"fail": "reinclude", "origin": "generated"}))
                 continue
+            if rng.chance(1, 40):
+                lines = case_overlap(tag, rng.choice(["main", "inc"]), rng.range(0, 400))
+                out.append(E.Case("g%d" % i, (["mode ginc"] if rng.chance(1, 3) else []) + lines, {"fail": "compile-error", "origin": "generated"}))
+                continue
             if rng.chance(1, 20):
                 out.append(E.Case("g%d" % i, case_init_pair(tag, pad=rng.range(0, 300)) if rng.chance(1, 3) else
                                   case_init(tag, pad=rng.range(0, 300), funcs=rng.range(0, 4)),
@@ -782,7 +895,7 @@ class C18(Prop):
             B.append(E.Case("b-" + name, lines, dict(meta, origin="boundary")))
 
         def gen(name, **kw):
-            g = Gen(rng, "b_" + name.replace("-", "_"))
+            g = Gen(rng, "b_" + name.replace("-", "_"), warn=kw.pop("warn", False), ginc=kw.pop("ginc", False))
             kw.setdefault("other", False)
             kw.setdefault("override", False)
             kw.setdefault("via", "apply")
@@ -837,7 +950,28 @@ class C18(Prop):
             gen("override-%d" % i, fail_kind=k, depth=i, bdepth=1, nchild=2, nbase=2, binary=(i != 1), override=True)
             gen("other-inh-%d" % i, fail_kind=k, depth=1, bdepth=i % 2, nchild=2, nbase=2, binary=(i != 0), other=True)
         gen("other-plain", fail_kind="funlitml", depth=2, nchild=3, nbase=0, binary=True, other=True)
-        g = Gen(rng, "b_wide")
+        # compile-time diagnostics on known lines: main file, include levels 1..3 (going down and after the return),
+        # inherited program, other object, with a saved binary (second load does not compile: no second report)
+        for i, kw in enumerate((dict(depth=0, nchild=2, nbase=0), dict(depth=1, nchild=3, nbase=0), dict(depth=3, nchild=4, nbase=0),
+                                dict(depth=2, nchild=3, nbase=2, bdepth=1), dict(depth=1, nchild=2, nbase=1, bdepth=2, other=True),
+                                dict(depth=2, nchild=3, nbase=1, bdepth=1, binary=True),
+                                dict(depth=3, nchild=4, nbase=0, prepad=("n", 300), tails=["nonl", "nonl", "nonl", "nonl"]))):
+            kw.setdefault("binary", False)
+            gen("warn-%d" % i, fail_kind=("div", "error")[i % 2], warn=True, **kw)
+        # every compilation unit starts inside the global include file (zero-length first segment of the main file)
+        for i, kw in enumerate((dict(depth=0, nchild=1, nbase=0), dict(depth=2, nchild=3, nbase=0, fail_slot=2),
+                                dict(depth=1, nchild=2, nbase=2, bdepth=1, binary=True), dict(depth=1, nchild=2, nbase=1, other=True),
+                                dict(depth=0, nchild=1, nbase=0, prepad=("n", 40000)), dict(depth=3, nchild=4, nbase=0, warn=True,
+                                                                                             tails=["oneline-nonl"] * 4))):
+            kw.setdefault("binary", False)
+            gen("ginc-%d" % i, fail_kind=("div", "error", "funlit")[i % 3], ginc=True, **kw)
+        mk("overlap-main", case_overlap("b_ovl_main"), fail="compile-error")
+        mk("overlap-main-far", case_overlap("b_ovl_far", pad=300), fail="compile-error")
+        mk("overlap-include", case_overlap("b_ovl_inc", where="inc", pad=4), fail="compile-error")
+        mk("overlap-include-ginc", ["mode ginc"] + case_overlap("b_ovl_ginc", where="inc", pad=11), fail="compile-error")
+        mk("ginc-init", ["mode ginc"] + case_init("b_ginc_init", pad=5, funcs=1), fail="init")
+        mk("ginc-multi-include", ["mode ginc"] + case_multi_include("b_ginc_mi", "back"), fail="reinclude")
+        g = Gen(rng, "b_wide", warn=False, ginc=False)
         mk("wide70000", g.build(fail_kind="div", depth=0, nchild=1, nbase=0, binary=False, prepad=("n", 70000), kind="wide",
                                 other=False, override=False, via="apply", rep=1),
            **g.meta)
@@ -863,7 +997,8 @@ class C18(Prop):
     def histogram(self, cases, impl):
         h = {"binary_all_reloaded_from_binary": 0, "binary_some_recompiled": 0, "fail": {}, "calls": {}, "depth": {}, "slots": {}, "inherit": 0, "binary": 0, "caught": 0, "long": 0,
              "maxline_ge_255": 0, "maxline_ge_32768": 0, "eh_lines": 0, "other": 0, "override": 0,
-             "lastline": {}, "files_without_final_newline": 0, "via": {}, "rep": {}}
+             "lastline": {}, "files_without_final_newline": 0, "via": {}, "rep": {}, "compile_diagnostics_placed": 0,
+             "dump_trace_lines": 0, "global_include": 0}
         for c in cases:
             m = c.meta
             if "fail" in m:
@@ -890,6 +1025,9 @@ class C18(Prop):
             if m.get("maxline", 0) >= 32768:
                 h["maxline_ge_32768"] += 1
             h["eh_lines"] += sum(1 for l in impl.get(c.id, []) if l.startswith("eh "))
+            h["compile_diagnostics_placed"] += m.get("ce", 0)
+            h["global_include"] += 1 if "mode ginc" in c.lines else 0
+            h["dump_trace_lines"] += sum(l.count("|") + 1 for l in impl.get(c.id, []) if l.startswith("dt ") and not l.endswith(" -"))
             if m.get("binary"):
                 evs = [l.split()[1] for l in impl.get(c.id, []) if l.startswith("ev ")]
                 h["binary_all_reloaded_from_binary" if len(evs) == len(set(evs)) else "binary_some_recompiled"] += 1
